@@ -143,7 +143,7 @@ class C10(Check):
             ir, table, js = gen.build_schema(d, feat)
             gen.check_truth(ir, table, js)
             tn = not d.p(0.15)
-            f2 = feat if tn else gen.Features(**dict(feat.__dict__, hints=0.0))
+            f2 = feat if tn else gen.Features(**dict(feat.__dict__, hints=0.0, tuples_in_unions=True))
             dg = gen.DataGen(d, f2, table)
             datum = dg.gen(ir, 5)
             kind = None
